@@ -152,3 +152,43 @@ def run(ctx):
         ctx.add("R17.4", f"C17/no-shared-mutable-statics/{cn}", not probs, "; ".join(probs))
     ctx.sample({"key_types": sorted(f"{be}:{short(ts)}" for (be, ts) in key_types(ctx))})
 import re
+
+# ---- R17.5: closed-world census of the aws-lc functions the lc module calls. Each listed function works only on its arguments
+# (objects owned by the calling key / operation); aws-lc's ERR_* error queue, RAND state setters, ENGINE / CRYPTO_set_* hooks and
+# anything else are per-thread or process-wide state that a failed operation would leave behind for the next one.
+# R17.6 (shared with C08 R08.3): a cloned key is component-wise the same key (so "a fresh copy" behaves like the original).
+LC_REVIEWED = {"BN_bin2bn", "BN_bn2bin", "BN_bn2bin_padded", "BN_free", "BN_num_bytes", "ECDH_compute_key", "ECDSA_SIG_free", "ECDSA_SIG_from_bytes",
+               "ECDSA_SIG_get0", "ECDSA_SIG_new", "ECDSA_SIG_set0", "ECDSA_SIG_to_bytes", "ECDSA_sign", "ECDSA_size", "ECDSA_verify", "EC_GROUP_free",
+               "EC_KEY_free", "EC_KEY_get0_private_key", "EC_KEY_get0_public_key", "EC_KEY_new", "EC_KEY_set_group", "EC_KEY_set_private_key",
+               "EC_KEY_set_public_key", "EC_POINT_free", "EC_POINT_mul", "EC_POINT_new", "EC_POINT_oct2point", "EC_POINT_point2oct", "EC_group_p384",
+               "OPENSSL_free", "BN_is_zero", "BN_cmp", "BN_num_bits", "EC_POINT_is_at_infinity", "EC_POINT_cmp", "BN_new", "BN_clear_free", "EC_KEY_check_key"}
+_run_c17 = run
+def run(ctx):
+    _run_c17(ctx)
+    cr = ctx.crates["paseto_v3_aws_lc"]
+    used, odd = set(), []
+    for k, f in cr.fns.items():
+        if not f.get("body"):
+            continue
+        for b in f["body"]["blocks"]:
+            t = b["term"]
+            if t["k"] == "call" and (t.get("callee") or {}).get("crate") == "aws_lc_sys":
+                n = t["callee"]["path"].rsplit("::", 1)[-1]
+                used.add(n)
+                if n not in LC_REVIEWED:
+                    odd.append(f"{n} (in {k})")
+    ctx.add("R17.5", "C17/lc-ffi-census", len(used) >= 25 and not odd,
+            ("aws-lc functions outside the reviewed argument-only set (thread-local / global state?): " + "; ".join(sorted(set(odd)))) if odd else ("" if len(used) >= 25 else "anchor missing"),
+            facts={"used": sorted(used)})
+    import c08
+    class Scratch:
+        def __init__(s): s.findings = []; s.world = ctx.world; s.crates = ctx.crates; s.analysed = {"functions": 0, "paths": 0, "call_sites": 0}; s.notes = []; s.tier = ctx.tier; s.facts_dir = ctx.facts_dir
+        def add(s, rule, k, ok, detail="", site=None, facts=None): s.findings.append((rule, k, ok, detail, site))
+        def sample(s, x): pass
+    sc = Scratch()
+    c08.run(sc)
+    for (rule, k, ok, detail, site) in sc.findings:
+        if rule == "R08.3":
+            ctx.add("R17.6", "C17/clone/" + k.split("/", 1)[-1], ok, detail, site)
+FLOORS["R17.5"] = 1
+FLOORS["R17.6"] = 4
